@@ -1,4 +1,5 @@
 import UrcuVerif.Src.SyncFull
+import UrcuVerif.Src.SyncQScan
 /-!
 # Source refinement, grace-period updater side (memb / mb): final statements
 
@@ -326,3 +327,94 @@ example : absRun false ⟨{ upc := .mbar1, gp := false, reg := [0], inp := [0], 
     .ok [.uMbarRet true] ⟨{ upc := .p1, gp := false, reg := [0], inp := [0], snap := [], qs := [] }, none⟩ [] := by decide
 
 end UrcuVerif.Props.SrcSync
+
+/-! # QSBR (urcu-qsbr.c, 64-bit single-pass variant) against `Gp/Qsbr.lean`
+
+Checker, labels, discipline: header of `Src/SyncQRefine.lean` (`SyncQ.absRun`, local automaton `SyncQ.lstep` of
+`Src/SyncQLocal.lean`).  Counter abstraction: C value `encQ g = 2g - 1` stands for L2's `gp = g`, reader word `0` for offline. -/
+namespace UrcuVerif.Props.SrcSyncQsbr
+open UrcuVerif UrcuVerif.Src UrcuVerif.Src.Sync UrcuVerif.Src.SyncQ
+
+/-- one relaxed load of `*ctr`; INACTIVE (2) iff the word is 0, ACTIVE_CURRENT (0) iff it equals the plain-read
+`urcu_qsbr_gp.ctr`, ACTIVE_OLD (1) otherwise – L2's `uScan` guard `mctr j = 0 ∨ mctr j = gp` -/
+theorem urcu_qsbr_reader_state_refines (fuel : Nat) (env : Env) (C : Loc) (c : Int) (v : Val) (rest : List Val)
+    (hc : env.vars "ctr" = some (.ptr C)) (hp : env.priv gpCtrQ = some (.int c)) :
+    ∃ out, exec fuel Gen.Src.«urcu_qsbr_reader_state» env (v :: rest) = .ok out ∧
+      out.events = [.ld C v 0] ∧ out.ctl = .ret (some (.int (clsQ c v))) ∧ out.inp = rest ∧ out.env.priv = env.priv :=
+  qsbr_reader_state_exec fuel env C c v rest hc hp
+
+theorem qsbr_wait_gp_refines (trk : Bool) : WaitGpSpecQ trk Gen.Src.«qsbr.wait_gp» := qsbr_wg_spec trk
+
+theorem qsbr_wait_for_readers_refines (trk : Bool) (fuel : Nat) (g : Nat) (gv : Val) (env : Env) (inp : List Val)
+    (ss : SyncQ.SS) (wins : Wins) (out : Out) (hP : SyncQ.WfrPre g gv env ss)
+    (h : exec fuel Gen.Src.«qsbr.wait_for_readers» env inp = .ok out) :
+    SyncQ.absRun trk ss wins out.events ≠ .bad ∧
+    ∀ labs ss' wins', SyncQ.absRun trk ss wins out.events = .ok labs ss' wins' →
+      SyncQ.lrun ss.ls labs = some ss'.ls ∧ SyncQ.WfrPost g gv out.ctl out.env ss' wins' := by
+  have := (SyncQ.Ok_iff _ _ _ _ _).1 (qsbr_wfr_holds trk fuel g gv env inp ss wins hP out h)
+  exact ⟨this.1, fun labs ss' wins' ha => ⟨SyncQ.absRun_lrun _ _ _ _ _ _ _ ha, this.2 labs ss' wins' ha⟩⟩
+
+/-- the grace-period branch of the GENERATED `urcu_qsbr_synchronize_rcu` (`qsbr_sync_eq : … = syncQT …`, `gpBlockQ` is the
+`else` branch of `if (cds_list_empty(&registry)) goto out;`): from pc `idle` with a non-empty registry and `gp = g ≥ 1`, the store
+`urcu_qsbr_gp.ctr + URCU_QSBR_GP_CTR` is `uInc (g+1)`, the scan loads are `uScan`, the splice is `uEnd`; back at pc `idle` with
+`gp = g + 1` -/
+theorem qsbr_grace_period_refines (trk : Bool) (fuel : Nat) (g : Nat) (hg : 1 ≤ g) (vars : String → Option Val) (env : Env)
+    (inp : List Val) (ss : SyncQ.SS) (wins : Wins) (out : Out) (hI : GInvQ .idle g (fun ls => ls.reg ≠ []) vars env ss)
+    (h : exec fuel (gpBlockQ Gen.Src.«qsbr.wait_for_readers») env inp = .ok out) :
+    SyncQ.absRun trk ss wins out.events ≠ .bad ∧
+    ∀ labs ss' wins', SyncQ.absRun trk ss wins out.events = .ok labs ss' wins' →
+      SyncQ.lrun ss.ls labs = some ss'.ls ∧ GPostQ .idle (g+1) (fun _ => True) vars out.ctl out.env ss' wins' := by
+  have := (SyncQ.Ok_iff _ _ _ _ _).1 (qsbr_grace_period_holds trk fuel g hg vars env inp ss wins hI out h)
+  exact ⟨this.1, fun labs ss' wins' ha => ⟨SyncQ.absRun_lrun _ _ _ _ _ _ _ ha, this.2 labs ss' wins' ha⟩⟩
+
+theorem qsbr_synchronize_rcu_shape :
+    Gen.Src.«qsbr.urcu_qsbr_synchronize_rcu» = syncQT Gen.Src.«qsbr.wait_for_readers» := qsbr_sync_eq
+
+theorem proj_enabled (c : Qsbr.Cfg) (s : Qsbr.State) (ls ls' : SyncQ.LState) (l : SyncQ.LLabel)
+    (hp : SyncQ.Proj s ls) (hl : SyncQ.lstep ls l = some ls') (hg : SyncQ.Guard c s l) :
+    ∃ s', Qsbr.step c s l.toL2 = some s' ∧ SyncQ.Proj s' ls' := SyncQ.proj_enabled c s ls ls' l hp hl hg
+theorem proj_step (c : Qsbr.Cfg) (s s' : Qsbr.State) (ls : SyncQ.LState) (l : SyncQ.LLabel)
+    (hp : SyncQ.Proj s ls) (st : Qsbr.step c s l.toL2 = some s') (ho : SyncQ.Obs s l)
+    (hwf : ∀ j, (s.reg j = true ∨ s.inp j = true) → j < c.n) :
+    ∃ ls', SyncQ.lstep ls l = some ls' ∧ SyncQ.Proj s' ls' := SyncQ.proj_step c s s' ls l hp st ho hwf
+theorem proj_frame (c : Qsbr.Cfg) (s s' : Qsbr.State) (ls : SyncQ.LState) (l : Qsbr.Label)
+    (hp : SyncQ.Proj s ls) (st : Qsbr.step c s l = some s') (ho : SyncQ.owned l = false) : SyncQ.Proj s' ls :=
+  SyncQ.proj_frame c s s' ls l hp st ho
+
+/-! ## non-vacuity -/
+
+def envQ : Env :=
+  { vars := fun _ => none, priv := fun l => if l = gpCtrQ then some (.int 3) else none }
+def ssQ : SyncQ.SS := ⟨{ upc := .idle, gp := 2, reg := [0, 1], inp := [] }, none⟩
+
+def labelsOfQ (trk : Bool) (r : Except String Out) (ss : SyncQ.SS) (wins : Wins) :
+    Option (List SyncQ.LLabel × SyncQ.LState × Ctl × Nat) :=
+  match r with
+  | .ok o =>
+    match SyncQ.absRun trk ss wins o.events with
+    | .ok labs ss' _ => some (labs, ss'.ls, o.ctl, o.events.length)
+    | _ => none
+  | _ => none
+
+/-- the grace-period branch over two readers (reader 0 offline, reader 1 already at the new counter value 5 = encQ 3):
+12 events, `uInc 3`, two `uScan`, `uEnd` -/
+example : labelsOfQ false (exec 4 (gpBlockQ Gen.Src.«qsbr.wait_for_readers») envQ
+      [.ptr (.obj 0), .ptr (.obj 1), .int 0, .int 0, .int 0, .int 5, .int 0, .int 1, .int 0]) ssQ [] =
+    some ([.uInc false 3, .uScan 0 0, .uScan 1 3, .uEnd], { upc := .idle, gp := 3, reg := [0, 1], inp := [] }, .normal, 12) := by
+  decide
+
+/-- hypotheses of `qsbr_grace_period_refines` satisfiable -/
+example : GInvQ .idle 2 (fun ls => ls.reg ≠ []) envQ.vars envQ ssQ :=
+  ⟨rfl, rfl, rfl, rfl, by simp [envQ, encQ], by simp [ssQ]⟩
+
+/-- a reader still at the old counter value stays in the input list (no label) -/
+example : SyncQ.absRun false ⟨{ upc := .scan, gp := 3, reg := [1], inp := [1] }, none⟩ []
+    [.ld (.field (.obj 1) "ctr") (.int 3) 0] = .ok [] ⟨{ upc := .scan, gp := 3, reg := [1], inp := [1] }, none⟩ [] := by decide
+/-- moving it nevertheless is `.bad` -/
+example : SyncQ.absRun false ⟨{ upc := .scan, gp := 3, reg := [1], inp := [1] }, none⟩ []
+    [.ld (.field (.obj 1) "ctr") (.int 3) 0,
+     .ext "cds_list_move" [.ptr (.field (.obj 1) "node"), .ptr qsr] (.int 0)] = .bad := by decide
+/-- a wrong increment of the counter is `.bad` -/
+example : SyncQ.absRun false ssQ [] [.st gpCtrQ (.int 4) 0] = .bad := by decide
+
+end UrcuVerif.Props.SrcSyncQsbr
